@@ -32,8 +32,13 @@ def calls_in(n):
 
 def strip(e):
     """Look through casts / default-arg wrappers."""
-    while isinstance(e, dict) and e.get("k") in ("cast", "defarg", "definit"):
-        e = e.get("e")
+    while isinstance(e, dict):
+        if e.get("k") in ("cast", "defarg", "definit"):
+            e = e.get("e")
+        elif e.get("k") == "ctor" and e.get("elidable") and len(e.get("a", [])) == 1:
+            e = e["a"][0]          # -std=gnu++11/14: `T x = f();` is written as a move of the prvalue; C++17 constructs in place
+        else:
+            break
     return e
 
 
